@@ -81,6 +81,10 @@ def match_known(prop, qualname, oname, detail, kf):
             continue
         if k.get("bounded_check") or not (k.get("function") or k.get("clause")):
             continue          # findings of bounded checks never excuse a refuted obligation
+        if k.get("class"):
+            # carved out as a witness class by the variant itself (harness: the obligation must be proved outside the
+            # class and then has status 'known'); an obligation that is still 'refuted' lies outside the class
+            continue
         if k.get("function") and k["function"] != qualname:
             continue
         if k.get("clause") and ("/" + k["clause"]) not in oname and not oname.endswith(k["clause"]):
